@@ -89,6 +89,55 @@ Definition kcoreness_centrality_bu (n : nat) (W : mat Q) :=
 Definition kcoreness_centrality_bd (n : nat) (W : mat Q) :=
   kcoreness_loop (kcore_bd n W) (ss_bd n) n n.
 
+(* ---------- the `peel` argument and the two return shapes ---------- *)
+(* kcore_bu / kcore_bd (CIJ, k, peel=False):
+     if peel: peelorder, peellevel = ([], [])                       (the lists exist only under the flag)
+     ... if peel: peelorder.append(ff) ; if peel: peellevel.append(iter * np.ones((len(ff),)))
+     if peel: return CIJkcore, kn, peelorder, peellevel  else: return CIJkcore, kn
+   score_wu (CIJ, s) has neither the argument nor iter: it is the flag-off loop. *)
+Fixpoint peel_loop_f (pflag : bool) (dg : nat -> mat Q -> vec Q) (fuel n : nat) (k : Q) (M : mat Q)
+                     (it : nat) (po pl : list (list nat)) : option peel_res :=
+  match fuel with
+  | O => None
+  | S f =>
+    let deg := tabv 0 n (dg n M) in
+    match peel_ff n deg k with
+    | [] => Some (mk_peel_res M deg it po pl)
+    | (_ :: _) as ff =>
+      let M' := tab 0 n n (zero_cols ff (zero_rows ff M)) in
+      peel_loop_f pflag dg f n k M' (S it)
+        (if pflag then po ++ [ff] else po) (if pflag then pl ++ [repeat (S it) (length ff)] else pl)
+    end
+  end.
+
+(* what the caller receives: (CIJkcore, kn) and, only when peel is true, (peelorder, peellevel) *)
+Definition kcore_ret := (mat Q * nat * option (list (list nat) * list (list nat)))%type.
+Definition peel_py (dg : nat -> mat Q -> vec Q) (n : nat) (W : mat Q) (k : Q) (pflag : bool) : option kcore_ret :=
+  match peel_loop_f pflag dg (S n) n k W 0%nat [] [] with
+  | None => None
+  | Some r => Some (pr_M r, kn_of n (pr_deg r), if pflag then Some (pr_order r, pr_level r) else None)
+  end.
+Definition kcore_bu_py := peel_py deg_und.
+Definition kcore_bd_py := peel_py deg_dir.
+Definition score_wu_py (n : nat) (W : mat Q) (s : Q) : option kcore_ret := peel_py str_und n W s false.
+
+(* kcoreness_centrality_*: `CIJkcore, kn[k] = kcore_b?(CIJ, k)` — the DEFAULT peel=False, 2-tuple path *)
+Fixpoint kcoreness_loop_py (core : Q -> option kcore_ret) (ss : mat Q -> nat -> bool) (n m : nat)
+  : option (vec nat * list nat) :=
+  match m with
+  | O => Some (fun _ => 0%nat, [])
+  | S m' =>
+    match kcoreness_loop_py core ss n m', core (inject_Z (Z.of_nat m')) with
+    | Some (cor, kn), Some (M, knk, _) =>
+        Some (tabv 0%nat n (fun j => if ss M j then m' else cor j), kn ++ [knk])
+    | _, _ => None
+    end
+  end.
+Definition kcoreness_centrality_bu_py (n : nat) (W : mat Q) :=
+  let W1 := bu_prep n W in kcoreness_loop_py (fun k => kcore_bu_py n W1 k false) (ss_bu n) n n.
+Definition kcoreness_centrality_bd_py (n : nat) (W : mat Q) :=
+  kcoreness_loop_py (fun k => kcore_bd_py n W k false) (ss_bd n) n n.
+
 (* ---------- executable interface ---------- *)
 Definition qred_rows (n : nat) (W : mat Q) : list (list Q) := to_rows n n (fun i j => Qred (W i j)).
 Definition out_peel (n : nat) (r : option peel_res) :=
@@ -105,6 +154,21 @@ Definition run_coreness (which : nat) (rows : list (list Q)) : option (list nat 
   let n := length rows in
   let W := of_rows 0 rows in
   match (match which with O => kcoreness_centrality_bu n W | _ => kcoreness_centrality_bd n W end) with
+  | None => None
+  | Some (cor, kn) => Some (to_list n cor, kn)
+  end.
+(* the routines as called: with the peel argument / through the default 2-tuple path (these are what the harness runs) *)
+Definition run_core_py (which : nat) (rows : list (list Q)) (k : Q) (pflag : bool) :=
+  let n := length rows in
+  let W := of_rows 0 rows in
+  match (match which with O => kcore_bu_py n W k pflag | S O => kcore_bd_py n W k pflag | _ => score_wu_py n W k end) with
+  | None => None
+  | Some (M, kn, pp) => Some (qred_rows n M, kn, pp)
+  end.
+Definition run_coreness_py (which : nat) (rows : list (list Q)) : option (list nat * list nat) :=
+  let n := length rows in
+  let W := of_rows 0 rows in
+  match (match which with O => kcoreness_centrality_bu_py n W | _ => kcoreness_centrality_bd_py n W end) with
   | None => None
   | Some (cor, kn) => Some (to_list n cor, kn)
   end.
